@@ -116,7 +116,11 @@ def judge(prog: dict[str, Any], dres: dict[str, Any], nres: dict[str, Any], main
             found.append((sig, what))
 
     dc, nc = dres.get("crashed"), nres.get("crashed")
-    if dc or nc:
+    if _fixture_artefact(dc) or _fixture_artefact(nc):
+        # the toy fixture stubs lack a symbol the checker looks up (e.g. typing_extensions.TypeAliasType for a `type`
+        # statement under a 3.10 target): says nothing about the parsers; counted, never reported
+        st["outcome"] = "fixture-artefact-crash"
+    elif dc or nc:
         if bool(dc) != bool(nc) or _crash_kind(dc) != _crash_kind(nc):
             diff(f"crash|default={_crash_kind(dc)}|native={_crash_kind(nc)}", f"default crashed={dc} native crashed={nc}")
         st["outcome"] = "crash"
@@ -136,10 +140,14 @@ def judge(prog: dict[str, Any], dres: dict[str, Any], nres: dict[str, Any], main
     return found, st
 
 
+def _fixture_artefact(c: str | None) -> bool:
+    return bool(c) and ("lookup_qualified" in c or "Could not find builtin symbol" in c or "fixture" in c)
+
+
 def _crash_kind(c: str | None) -> str:
     if not c:
         return "no"
-    return re.sub(r"\d+", "N", c)[:160]
+    return c[:200]
 
 
 # --------------------------------------------------------------------------- single lane (one program per build)
@@ -154,7 +162,7 @@ def run_single(prog: dict[str, Any], root: str, check_projection: bool = False) 
         except ExecError as e:
             if e.kind == "timeout":
                 return {"herr": f"timeout {prog['id']} native={native}"}
-            res[native] = {"messages": [], "blocker": False, "crashed": f"{e.kind} :: {e.info.strip().splitlines()[-1][:200] if e.info.strip() else ''}"}
+            res[native] = {"messages": [], "blocker": False, "crashed": f"child {e.kind}: {e.info.strip().splitlines()[-1][:100] if e.info.strip() else ''}"}
     out: dict[str, Any] = {"res": res}
     if check_projection and not res[False].get("crashed"):
         try:
@@ -200,7 +208,7 @@ def _account(out: dict[str, Any], prog: dict[str, Any], found: list[tuple[str, s
     s["with_end"] += st["with_end"]
     s["eof_line_diags"] += st["eof_line"]
     s["unknown_file_diags"] += st["unknown_file"]
-    if st["diags"] or st["outcome"] != "both-accept":
+    if st["diags"] or st["outcome"] in ("both-reject", "blocker-mismatch", "crash"):
         s["nontrivial"] += 1
     out["kinds"].update(st["kinds"])
     if st["diags"] and len(out["samples"]) < 1:
@@ -215,19 +223,45 @@ def _account(out: dict[str, Any], prog: dict[str, Any], found: list[tuple[str, s
 
 
 def _size(prog: dict[str, Any]) -> int:
-    return len(prog["main"] or "") if prog.get("main") is not None else sum(len(v) for k, v in prog["files"].items() if k.startswith("m"))
+    return len(prog["main"]) if prog.get("main") is not None else len(prog["files"].get(FILE_LANE_NAME, ""))
 
 
 def _replay_detail(prog: dict[str, Any]) -> dict[str, Any]:
     d = {"id": prog["id"], "pyver": list(prog.get("pyver") or ()), "kind": prog.get("kind", "text")}
+    text = prog["main"] if prog.get("main") is not None else prog["files"].get(FILE_LANE_NAME)
+    if isinstance(prog.get("corrupted"), str):
+        d["corruption"] = prog["corrupted"]
+    if prog.get("main") is None:
+        d["read_from_disk"] = True  # the program is tmp/m00000.py, read by mypy itself (what the command line does)
+        if NEIGHBOUR_NAME in prog["files"]:
+            d["with_trivial_second_module"] = True
     if d["kind"] == "corpus":
         d["case"] = prog["id"]
         if prog.get("corrupted"):
-            d["main"] = prog["main"]
+            d["main"] = text
     else:
-        d["main"] = prog["main"]
-        d["entry_file"] = prog.get("entry_file")
+        d["main"] = text
     return d
+
+
+FILE_LANE_NAME = "m00000.py"
+
+
+NEIGHBOUR_NAME = "m00001.py"
+
+
+def _as_file_prog(prog: dict[str, Any], neighbour: bool = False) -> dict[str, Any]:
+    """The same single program, but as a module file that mypy reads from disk itself; with `neighbour` a second,
+    trivial module (`pass`) is built along (mypy's native front end takes another code path for more than one file)."""
+    p = dict(prog)
+    p["files"] = dict(prog["files"])
+    p["files"][FILE_LANE_NAME] = prog["main"] if prog.get("main") is not None else prog["files"][FILE_LANE_NAME]
+    p["main"] = None
+    p["entries"] = [("tmp/" + FILE_LANE_NAME, FILE_LANE_NAME[:-3])]
+    if neighbour:
+        p["files"][NEIGHBOUR_NAME] = "pass\n"
+        p["entries"].append(("tmp/" + NEIGHBOUR_NAME, NEIGHBOUR_NAME[:-3]))
+    return p
 
 
 # --------------------------------------------------------------------------- module lane (many programs per build)
@@ -242,6 +276,7 @@ def build_modules(spec: dict[str, Any], root: str, native: bool) -> dict[str, An
     from mypy.modulefinder import BuildSource
 
     os.chdir(root)
+    L.quiet_fd2()
     options = L.make_options(spec, native)
     sources = [BuildSource("tmp/" + rel, rel[:-3], None) for rel in spec["modules"]]
     blocker, crashed = False, None
@@ -257,7 +292,7 @@ def build_modules(spec: dict[str, Any], root: str, native: bool) -> dict[str, An
     except SystemExit as e:
         msgs, crashed = [], f"SystemExit({e.code})"
     except BaseException as e:  # noqa: BLE001
-        msgs, crashed = [], f"{type(e).__name__}: {str(e)[:200]}"
+        msgs, crashed = [], L.exc_kind(e)
     finally:
         sys.stdout, sys.stderr = real
     crashed = L.crash_of(crashed, sout.getvalue(), serr.getvalue())
@@ -298,6 +333,17 @@ def _module_round(progs: list[tuple[str, str]], meta: dict[str, Any], root: str,
     out["stats"]["module_builds"] += 2
     if any(res[k]["blocker"] or res[k]["crashed"] for k in res):
         out["stats"]["batch_splits"] += 1
+        named = set()
+        for k in res:
+            if res[k]["blocker"]:
+                named |= {J.norm_path(f) for f in J.split_by_file(res[k]["messages"])}
+        idx = [i for i, n in enumerate(names) if f"tmp/{n}" in named]
+        if idx and len(idx) < len(progs) and depth < 40:
+            # the blocked builds name the rejected files: those are built alone, the rest together again
+            for i in idx:
+                _module_round([progs[i]], meta, root, out, depth + 1)
+            _module_round([p for i, p in enumerate(progs) if i not in set(idx)], meta, root, out, depth + 1)
+            return
         mid = len(progs) // 2
         _module_round(progs[:mid], meta, root, out, depth + 1)
         _module_round(progs[mid:], meta, root, out, depth + 1)
@@ -333,7 +379,12 @@ def module_batch(item: dict[str, Any]) -> dict[str, Any]:
     """item: {"progs": [(id, text)...], "pyver", "flags"}."""
     root = scratch("c14", f"m{os.getpid()}")
     out = {"findings": [], "herr": [], "stats": Counter(), "kinds": set(), "samples": [], "projection": [0, 0]}
-    _module_round(item["progs"], item, root, out)
+    alone = [p for p in item["progs"] if G.predicted_blocker(p[1])]
+    together = [p for p in item["progs"] if not G.predicted_blocker(p[1])]
+    out["stats"]["routed_alone"] += len(alone)
+    for p in alone:
+        _module_round([p], item, root, out)
+    _module_round(together, item, root, out)
     shutil.rmtree(root, ignore_errors=True)
     out["kinds"] = sorted(out["kinds"])
     # keep the batch result small: per signature the smallest KEEP_PER_SIG findings and a count
@@ -367,7 +418,7 @@ def parse_entry(text: str, native: bool, pyver: tuple[int, int]) -> dict[str, An
     try:
         mypy.parse.parse(text, "main", "__main__", errors, o, eager=True)
     except BaseException as e:  # noqa: BLE001
-        return {"messages": [], "blocker": False, "crashed": f"{type(e).__name__}: {str(e)[:120]}"}
+        return {"messages": [], "blocker": False, "crashed": L.exc_kind(e)}
     return {"messages": errors.new_messages(), "blocker": errors.is_blockers(), "crashed": None}
 
 
@@ -375,6 +426,7 @@ def parse_batch(item: dict[str, Any]) -> dict[str, Any]:
     """item: {"texts": [(id, text)...], "pyver"}.  Runs in one fresh child (the parse entry point keeps no state
     between calls: a fresh Errors and Options per call)."""
     pyver = tuple(item["pyver"])
+    L.quiet_fd2()
     out = {"findings": [], "stats": Counter(), "accept": [], "kinds": set(), "herr": [], "samples": []}
     for pid, text in item["texts"]:
         prog = {"id": pid, "main": text, "files": {}, "pyver": pyver, "tags": [], "kind": item.get("kind", "text")}
@@ -496,18 +548,31 @@ def grammar_programs(ctx: Ctx, cov: dict[str, Any]) -> tuple[list[tuple[str, str
             d1.append((pid, text))
     for pid, text in G.type_x_position():
         add(pid, text, "type-x-position")
+    # quick tier: one variant per (form, hole, form) -- the bare one, else the parenthesised one -- and only the
+    # combinations in which at least one factor is a representative form; thorough: full products, all variants
     for pid, text in G.pattern_x_pattern():
-        if ctx.thorough or ":bare" in pid or pid.count(":") == 2:
-            add(pid, text, "pattern-x-pattern")
-    # quick: one variant per (form, hole, form): the bare one, else the parenthesised one; thorough: all variants
+        parts = pid.split(":")
+        if ctx.quick:
+            if parts[1] != "case":
+                continue
+            if len(parts) > 3 and not (parts[2] in G.REP_PATTERNS or parts[4] in G.REP_PATTERNS):
+                continue
+        add(pid, text, "pattern-x-pattern")
     for gen, family in ((G.stmt_x_expr, "stmt-x-expr"), (G.expr_x_expr, "expr-x-expr")):
         done: set[str] = set()
+        outer_reps = G.REP_STMTS if family == "stmt-x-expr" else G.REP_EXPRS
         for pid, text in gen():
             if ctx.thorough:
                 add(pid, text, family)
                 continue
             if pid.endswith(":stmt") or pid.endswith(":probe"):
                 continue
+            parts = pid.split(":")
+            if not (parts[1] in outer_reps or parts[3] in G.REP_EXPRS):
+                continue
+            if family == "expr-x-expr" and not (parts[1] in outer_reps and parts[3] in G.REP_EXPRS) \
+                    and parts[1] not in G.QUICK_FULL_OUTER and parts[3] not in G.QUICK_FULL_INNER:
+                continue  # expression x expression: representative x representative, plus six full rows and columns
             key = pid.rsplit(":", 1)[0]
             if key in done:
                 continue
@@ -515,6 +580,9 @@ def grammar_programs(ctx: Ctx, cov: dict[str, Any]) -> tuple[list[tuple[str, str
                 done.add(key)
     for pid, text in d1:
         for lname, t2 in G.layouts(text):
+            if ctx.quick and re.search(r"-\d+$", lname):
+                if not (lname.startswith(G.QUICK_GAP_LAYOUTS) and pid.startswith("S:")):
+                    continue
             add(f"L:{lname}:{pid}", t2, "layout")
     cov["grammar_programs"] = dict(fam)
     cov["grammar_candidates_rejected_by_cpython"] = dict(rejected)
@@ -597,15 +665,15 @@ def run(ctx: Ctx, phases: tuple[str, ...] = ("corpus", "grammar", "corrupt"), fa
         gprogs = [(pid, t) for pid, t in gprogs if pid.split(":")[0] in families]
     meta = {"pyver": GRAMMAR_PYVER, "flags": GRAMMAR_FLAGS}
     items = [{"progs": list(ch), **meta} for ch in chunked(gprogs, BATCH)]
-    # the version axis: quick = depth-1, type and pattern-free programs (they carry all the version-gated syntax) at
-    # every other version; thorough = every non-layout program at 3.10 and 3.14, the small families at 3.11 / 3.13
-    small = [(pid, t) for pid, t in gprogs if pid.split(":")[0] in ("S", "E", "P", "TxA")]
+    # the version axis: quick = the depth-1 programs (they carry all the version-gated syntax) at every other version;
+    # thorough = depth-1, type and pattern programs at every other version, plus statement x expression (bare) at 3.10
+    small = [(pid, t) for pid, t in gprogs if pid.split(":")[0] in ("S", "E", "P")]
     medium = [(pid, t) for pid, t in gprogs if pid.split(":")[0] in ("S", "E", "P", "TxA", "PxP")]
-    big = [(pid, t) for pid, t in gprogs if pid.split(":")[0] != "L"]
+    oldest = [(pid, t) for pid, t in gprogs if pid.split(":")[0] == "SxE" and pid.endswith(":bare")]
     for pv in VERSIONS:
         if pv == GRAMMAR_PYVER:
             continue
-        sel = small if ctx.quick else (big if pv in ((3, 10), (3, 14)) else medium)
+        sel = small if ctx.quick else (medium + oldest if pv == VERSIONS[0] else medium)
         items += [{"progs": [(f"{pid}@3.{pv[1]}", t) for pid, t in ch], "pyver": pv, "flags": GRAMMAR_FLAGS} for ch in chunked(sel, BATCH)]
         cov.setdefault("grammar_programs_other_versions", {})[f"3.{pv[1]}"] = len(sel)
     if "grammar" not in phases:
@@ -620,10 +688,16 @@ def run(ctx: Ctx, phases: tuple[str, ...] = ("corpus", "grammar", "corrupt"), fa
     log(f"C14 grammar: {n_grammar} programs, wall {time.time() - t0:.0f}s cpu {_cpu() - c0:.0f}s")
 
     # ---- (c) corruptions: parse-entry lane
-    bases: list[tuple[str, str, int, dict | None]] = [(pid, t, len(G.PRELUDE), None) for pid, t in d1]
+    bases: list[tuple[str, str, int, dict | None]] = [(pid, t, len(G.PRELUDE), None) for pid, t in d1
+                                                      if ctx.thorough or pid.split(":")[0] in ("S", "P")]
     if ctx.thorough:
         bases += [(pid, t, len(G.PRELUDE), None) for pid, t in gprogs if pid.split(":")[0] in ("TxA", "PxP") and ":paren" not in pid]
-    ccases = [c for c in usable if not c.files and "no_native_parse" not in c.tags and len(c.main) < 1500]
+    # the corpus slice of (c) is seed-independent: the smallest single-file cases of ALL files (quick: a prefix of
+    # the thorough list, so every quick finding is a thorough finding)
+    allc: list[corpus.Case] = []
+    for f in corpus_files(Ctx("thorough", 0)):
+        allc += [c for c in corpus.load_file(os.path.join(corpus.UNIT, f)) if L.usable_reason(c) is None]
+    ccases = [c for c in allc if not c.files and "no_native_parse" not in c.tags and 40 <= len(c.main) < 1500]
     ccases = sorted(ccases, key=lambda c: (len(c.main), c.id))
     ccases = ccases[: (Q_CORRUPT_CASES if ctx.quick else T_CORRUPT_CASES)]
     if "corrupt" not in phases:
@@ -733,21 +807,38 @@ def run(ctx: Ctx, phases: tuple[str, ...] = ("corpus", "grammar", "corrupt"), fa
             todo.append({"sig": sig, "prog": p, "origin": "parse-entry"})
     confirmed: dict[str, list[dict]] = {}
     unconfirmed: dict[str, list[dict]] = {}
-    citems = [{"progs": [t["prog"] for t in ch]} for ch in chunked(todo, 6)]
-    k = 0
-    for _i, it, st, val in pmap(single_batch, citems, fresh=False, timeout=3600):
-        chunk = todo[k:k + len(it["progs"])]
-        k += len(it["progs"])
-        if st != "ok":
-            agg.herr.append(f"confirmation batch failed: {val}")
-            continue
-        agg.stats["confirmation_pairs"] += val["stats"].get("pairs", 0)
-        agg.herr.extend(val["herr"])
-        for t in chunk:
-            pid = t["prog"]["id"]
-            hits = [f for f in val["findings"] if f["sig"] == t["sig"] and f["replay"]["id"] == pid
-                    and f["replay"].get("main", None) in (t["prog"]["main"], None)]
-            (confirmed if hits else unconfirmed).setdefault(t["sig"], []).extend(hits or [t])
+
+    def confirm_pass(tasks: list[dict[str, Any]]) -> list[dict[str, Any]]:
+        """Run every task's program alone; returns the tasks whose signature did not show."""
+        missed: list[dict[str, Any]] = []
+        citems = [{"progs": [t["prog"] for t in ch]} for ch in chunked(tasks, 6)]
+        k = 0
+        for _i, it, st, val in pmap(single_batch, citems, fresh=False, timeout=3600):
+            chunk = tasks[k:k + len(it["progs"])]
+            k += len(it["progs"])
+            if st != "ok":
+                agg.herr.append(f"confirmation batch failed: {val}")
+                continue
+            agg.stats["confirmation_pairs"] += val["stats"].get("pairs", 0)
+            agg.herr.extend(val["herr"])
+            for t in chunk:
+                want = _replay_detail(t["prog"])
+                hits = [f for f in val["findings"] if f["sig"] == t["sig"] and f["replay"] == want]
+                if hits:
+                    confirmed.setdefault(t["sig"], []).extend(hits)
+                else:
+                    missed.append(t)
+        return missed
+
+    missed = confirm_pass(todo)
+    # not shown by the program passed as text: try the same program alone as a file mypy reads itself
+    second = [{"sig": t["sig"], "prog": _as_file_prog(t["prog"]), "origin": t["origin"]} for t in missed if t["origin"] == "modules"]
+    still = confirm_pass(second)
+    # ... and next to one trivial second module (the multi-file code path with the smallest possible neighbour)
+    third = [{"sig": t["sig"], "prog": _as_file_prog(t["prog"], neighbour=True), "origin": t["origin"]} for t in still]
+    still = confirm_pass(third)
+    for t in still + [t for t in missed if t["origin"] != "modules"]:
+        unconfirmed.setdefault(t["sig"], []).append(t)
     cpu_by_phase["confirm"] = round(_cpu() - c0 - sum(cpu_by_phase.values()), 1)
     log(f"C14 confirmations: {len(todo)} programs, wall {time.time() - t0:.0f}s cpu {_cpu() - c0:.0f}s")
 
@@ -762,7 +853,7 @@ def run(ctx: Ctx, phases: tuple[str, ...] = ("corpus", "grammar", "corrupt"), fa
         if cands:
             per_sig[sig] = n
             for f in cands[:KEEP_PER_SIG]:
-                violations.append(Violation(sig, f"{f['replay']['id']} (py {'.'.join(map(str, f['replay']['pyver']))}): {f['what']}"[:600],
+                violations.append(Violation(sig, f"{f['replay'].get('corruption') or f['replay']['id']} (py {'.'.join(map(str, f['replay']['pyver']))}): {f['what']}"[:600],
                                             {"replay": f["replay"], "occurrences_this_run": n}))
         else:
             # seen in a sieve lane, not reproduced by the program alone: reported as such, never dropped
@@ -801,15 +892,16 @@ def run(ctx: Ctx, phases: tuple[str, ...] = ("corpus", "grammar", "corrupt"), fa
         "exhaustive": not agg.herr and set(phases) >= {"corpus", "grammar", "corrupt"} and families is None,
         "cpu_seconds_by_phase": cpu_by_phase, "cpu_seconds_total": round(_cpu() - c0, 1),
         "samples": agg.samples[:8],
-        "bounds": "corpus: every usable case of the listed files x listed versions; grammar: every form x hole x form "
-                  "(quick: one variant, thorough: bare/paren/probe variants); corruptions: every token of every "
-                  "depth-1 program (thorough: + type and pattern programs) and of the smallest corpus cases",
+        "bounds": "corpus: every usable case of the listed files x listed versions (quick: implied + 2, thorough: all 5); "
+                  "grammar: form x hole x form products (thorough: full products, bare/paren/probe variants; quick: products "
+                  "with at least one representative factor, one variant), every layout of every depth-1 program (quick: "
+                  "token-gap layouts only for statement forms); corruptions: every token x 16 operations of every depth-1 "
+                  "statement and pattern program (thorough: all depth-1, type and pattern programs) and of the smallest "
+                  "single-file corpus cases (quick 40, thorough 200)",
     })
     vac = []
     full = set(phases) >= {"corpus", "grammar", "corrupt"} and families is None
-    if not full:
-        pass
-    elif s["pairs"] < 1000:
+    if full and s["pairs"] < 1000:
         vac.append("fewer than 1000 build pairs")
     if full and len(agg.kinds) < 30:
         vac.append("fewer than 30 distinct message kinds")
@@ -844,22 +936,27 @@ def _prog_from_replay(rp: dict[str, Any]) -> dict[str, Any]:
                 p["kind"] = "corpus"
                 if rp.get("main") is not None:
                     p["main"] = rp["main"]
-                    p["corrupted"] = True
+                    p["corrupted"] = rp.get("corruption") or True
                 return p
         raise KeyError(rp["case"])
     return _text_prog(rp["id"], rp["main"], {"pyver": pv, "flags": GRAMMAR_FLAGS})
 
 
+def _prog_from_replay_full(rp: dict[str, Any]) -> dict[str, Any]:
+    p = _prog_from_replay(rp)
+    return _as_file_prog(p, neighbour=bool(rp.get("with_trivial_second_module"))) if rp.get("read_from_disk") else p
+
+
 def replay(ctx: Ctx, rec: dict) -> Result:
     L.preload()
     rp = rec["detail"]["replay"]
-    prog = _prog_from_replay(rp)
+    prog = _prog_from_replay_full(rp)
     root = scratch("c14-replay")
     r = run_single(prog, root)
     viol: list[Violation] = []
     if "herr" in r:
         return Result(PROPERTY, LEVEL, {}, [], harness_errors=[r["herr"]])
-    print("program:\n" + (prog["main"] or ""))
+    print("program:\n" + (prog["main"] if prog["main"] is not None else prog["files"][FILE_LANE_NAME]))
     print("default:", r["res"][False])
     print("native: ", r["res"][True])
     found, _st = judge(prog, r["res"][False], r["res"][True])
